@@ -33,45 +33,69 @@ def tfun(pairs):
 
 
 class Cfg:
-    """A model configuration = a scenario shape. creators: (name, meter, pre); registrars: (name, meter,
-    pre, unreg); tusers: (name, tracer, pre)."""
+    """A model configuration = a scenario shape. minst / tinst / xscripts: Set scripts over self|r1|r2 (one per
+    installer; an int n = n installers with the single real install ["r1"]); creators: (name, meter, pre[, kept]);
+    registrars: (name, meter, pre, unreg[, kept]); tusers: (name, tracer, pre[, kept])."""
 
-    def __init__(self, name, minst=1, creators=(), registrars=(), tinst=0, tusers=(), xkinds=(), recs=1, spans=1, uses=1):
-        self.name, self.minst, self.creators, self.registrars = name, minst, list(creators), list(registrars)
-        self.tinst, self.tusers, self.xkinds, self.recs, self.spans, self.uses = tinst, list(tusers), list(xkinds), recs, spans, uses
+    def __init__(self, name, minst=1, creators=(), registrars=(), tinst=0, tusers=(), xkinds=(), xscripts=None,
+                 recs=1, spans=1, uses=1):
+        one = lambda v: [["r1"]] * v if isinstance(v, int) else [list(x) for x in v]
+        self.name, self.minst, self.creators, self.registrars = name, one(minst), list(creators), list(registrars)
+        self.tinst, self.tusers, self.xkinds, self.recs, self.spans, self.uses = one(tinst), list(tusers), list(xkinds), recs, spans, uses
+        self.xscripts = {k: list((xscripts or {}).get(k, ["r1"])) for k in self.xkinds}
+
+    def insts(self):
+        out = [("i%d" % (k + 1), sc) for k, sc in enumerate(self.minst)]
+        out += [("ti%d" % (k + 1), sc) for k, sc in enumerate(self.tinst)]
+        out += [("xi." + k, self.xscripts[k]) for k in self.xkinds]
+        return out
+
+    def kept(self):
+        return [c[0] for c in self.creators if len(c) > 3 and c[3]] + [g[0] for g in self.registrars if len(g) > 4 and g[4]] + \
+               [u[0] for u in self.tusers if len(u) > 3 and u[3]]
 
     def defines(self, patched=False, known=True):
+        script = "(" + " @@ ".join('"%s" :> <<%s>>' % (n, ", ".join('"%s"' % a for a in sc)) for n, sc in self.insts()) + ")" \
+            if self.insts() else '[x \\in {} |-> <<>>]'
         return {
-            "MINST": tset("i%d" % (k + 1) for k in range(self.minst)),
+            "MINST": tset("i%d" % (k + 1) for k in range(len(self.minst))),
             "CREATORS": tset(c[0] for c in self.creators), "PREC": tset(c[0] for c in self.creators if c[2]),
             "REGISTRARS": tset(g[0] for g in self.registrars), "PREG": tset(g[0] for g in self.registrars if g[2]),
             "UNREGG": tset(g[0] for g in self.registrars if g[3]),
             "METEROF": tfun([(c[0], c[1]) for c in self.creators] + [(g[0], g[1]) for g in self.registrars]),
-            "TINST": tset("ti%d" % (k + 1) for k in range(self.tinst)),
+            "TINST": tset("ti%d" % (k + 1) for k in range(len(self.tinst))),
             "TUSERS": tset(u[0] for u in self.tusers), "PRET": tset(u[0] for u in self.tusers if u[2]),
             "TRACEROF": tfun([(u[0], u[1]) for u in self.tusers]), "XKINDS": tset(self.xkinds),
+            "SCRIPT": script, "KEPT": tset(self.kept()),
             "RECSPER": self.recs, "SPANSPER": self.spans, "USESPER": self.uses,
             "PATCHED": "TRUE" if patched else "FALSE", "ALLOWKNOWN": "TRUE" if known else "FALSE"}
 
     def procs(self):
-        ps = [dict(name="i%d" % (k + 1), kind="minst") for k in range(self.minst)]
-        ps += [dict(name=c[0], kind="creator", meter=c[1], pre=c[2], n=self.recs) for c in self.creators]
-        ps += [dict(name=g[0], kind="registrar", meter=g[1], pre=g[2], unreg=g[3]) for g in self.registrars]
-        ps += [dict(name="ti%d" % (k + 1), kind="tinst") for k in range(self.tinst)]
-        ps += [dict(name=u[0], kind="tuser", tracer=u[1], pre=u[2], n=self.spans) for u in self.tusers]
-        for k in self.xkinds:
-            ps += [dict(name="xi." + k, kind="xinst", x=k), dict(name="xu." + k, kind="xuser", x=k, n=self.uses)]
+        kept = set(self.kept())
+        kind = lambda n: "minst" if n.startswith("i") else "tinst" if n.startswith("ti") else "xinst"
+        ps = [dict(name=n, kind=kind(n), script=sc, **({"x": n[3:]} if kind(n) == "xinst" else {})) for n, sc in self.insts()]
+        ps += [dict(name=c[0], kind="creator", meter=c[1], pre=c[2], n=self.recs, kept=c[0] in kept) for c in self.creators]
+        ps += [dict(name=g[0], kind="registrar", meter=g[1], pre=g[2], unreg=g[3], kept=g[0] in kept) for g in self.registrars]
+        ps += [dict(name=u[0], kind="tuser", tracer=u[1], pre=u[2], n=self.spans, kept=u[0] in kept) for u in self.tusers]
+        ps += [dict(name="xu." + k, kind="xuser", x=k, n=self.uses) for k in self.xkinds]
         return ps
 
 
-C, G, U = (lambda n, m="m1", pre=False: (n, m, pre)), (lambda n, m="m1", pre=False, unreg=True: (n, m, pre, unreg)), \
-    (lambda n, t="t1", pre=False: (n, t, pre))
+C = lambda n, m="m1", pre=False, kept=False: (n, m, pre, kept)
+G = lambda n, m="m1", pre=False, unreg=True, kept=False: (n, m, pre, unreg, kept)
+U = lambda n, t="t1", pre=False, kept=False: (n, t, pre, kept)
 
 FAMILY_QUICK = [
     Cfg("m-c2-g2", creators=[C("c1", pre=True), C("c2")], registrars=[G("g1", pre=True), G("g2")]),
     Cfg("m-2inst-2meters", minst=2, creators=[C("c1", "m1", True), C("c2", "m2")], registrars=[G("g1", "m2", True)]),
-    Cfg("t-2inst-u3", minst=0, tinst=2, tusers=[U("u1", pre=True), U("u2"), U("u3", "t2")], spans=2),
-    Cfg("x-prop-eh+m", creators=[C("c1", pre=True)], registrars=[G("g1", pre=True, unreg=False)], xkinds=["prop", "eh"], uses=2),
+    # the Set call surface: self-set before the real install, then a second real provider; a creator through a kept
+    # reference to the default provider; a racing self-set / second provider from another installer
+    Cfg("m-self-r1-r2", minst=[["self", "r1", "r2"]], creators=[C("c1", pre=True), C("c2", kept=True)],
+        registrars=[G("g1", pre=True, unreg=False), G("g2", kept=True)]),
+    Cfg("m-race-self-r2", minst=[["r1"], ["self", "r2"]], creators=[C("c1", pre=True), C("c2")]),
+    Cfg("t-self-r1-r2+self", minst=0, tinst=[["self", "r1", "r2"], ["self"]], tusers=[U("u1", pre=True), U("u2", "t2"), U("u3", kept=True)]),
+    Cfg("x-prop-eh+m", creators=[C("c1", pre=True)], registrars=[G("g1", pre=True, unreg=False)], xkinds=["prop", "eh"],
+        xscripts={"prop": ["self", "r1"], "eh": ["r1", "r2"]}, uses=2),
 ]
 FAMILY_THOROUGH = [
     Cfg("m-c3-g1", creators=[C("c1", pre=True), C("c2"), C("c3", "m2")], registrars=[G("g1", pre=True)], recs=2),
@@ -79,6 +103,10 @@ FAMILY_THOROUGH = [
     Cfg("m-2inst-c2-g2", minst=2, creators=[C("c1", pre=True), C("c2")], registrars=[G("g1", pre=True), G("g2")]),
     Cfg("mt-mixed", creators=[C("c1", pre=True), C("c2")], registrars=[G("g1", pre=True)], tinst=1,
         tusers=[U("u1", pre=True), U("u2")]),
+    Cfg("m-2scripts", minst=[["self", "r1"], ["r2", "self"]], creators=[C("c1", pre=True), C("c3", kept=True)],
+        registrars=[G("g1", pre=True)]),
+    Cfg("t-2scripts", minst=0, tinst=[["self", "r1", "r2"], ["r2", "self"]], tusers=[U("u1", pre=True), U("u2", "t2"), U("u3", kept=True)],
+        spans=2),
 ]
 D1_ID = "C16-D1-unregister-setdelegate-lock-order"
 KNOWN_CYCLE = "(*meter).setDelegate>(*registration).setDelegate|(*registration).Unregister>(*meter).RegisterCallback.func1"
@@ -89,33 +117,54 @@ DIRECTED = [
     # D1 (TLC counterexample of the NoKnown config): the installer is held inside the delegate's Meter() --
     # it holds provider.mtx and meter.mtx --, Unregister takes unregMu and blocks on meter.mtx, the installer
     # goes on to registration.setDelegate and blocks on unregMu
-    dict(name="D1-unregister-vs-setdelegate", script=["i1@set", "g1@unreg", "i1@sdk.Meter:m1"],
+    dict(name="D1-unregister-vs-setdelegate", script=["i1@set:1", "g1@unreg", "i1@sdk.Meter:m1"],
          procs=[dict(name="i1", kind="minst"), dict(name="g1", kind="registrar", meter="m1", pre=True, unreg=True),
                 dict(name="c1", kind="creator", meter="m1", pre=True, n=1)]),
     # same window, registration made concurrently (not in the pre-phase) and a second meter
-    dict(name="D1-live-registration", script=["g1@meter", "g1@inst", "g1@register", "i1@set", "g1@unreg", "i1@sdk.Meter:m1"],
+    dict(name="D1-live-registration", script=["g1@meter", "g1@inst", "g1@register", "i1@set:1", "g1@unreg", "i1@sdk.Meter:m1"],
          procs=[dict(name="i1", kind="minst"), dict(name="g1", kind="registrar", meter="m1", unreg=True, ikind="f64ogauge")]),
     # Unregister completes first: the callback must never reach the SDK
-    dict(name="unregister-before-set", script=["g1@unreg", "i1@set", "i1@sdk.Meter:m1"],
+    dict(name="unregister-before-set", script=["g1@unreg", "i1@set:1", "i1@sdk.Meter:m1"],
          procs=[dict(name="i1", kind="minst"), dict(name="g1", kind="registrar", meter="m1", pre=True, unreg=True),
                 dict(name="g2", kind="registrar", meter="m1", pre=True, unreg=False)]),
     # instrument + callback created while the installer is inside meter.setDelegate: must end up connected
-    dict(name="create-during-install", script=["i1@set", "c2@meter", "g2@meter", "i1@sdk.Meter:m1", "i1@sdk.Inst:c1",
+    dict(name="create-during-install", script=["i1@set:1", "c2@meter", "g2@meter", "i1@sdk.Meter:m1", "i1@sdk.Inst:c1",
                                                "c2@sdk.Meter:m1", "g2@sdk.Meter:m1", "c2@inst", "c2@sdk.Inst:c2", "c2@rec:1"],
          procs=[dict(name="i1", kind="minst"), dict(name="c1", kind="creator", meter="m1", pre=True, n=2),
                 dict(name="c2", kind="creator", meter="m1", n=2), dict(name="g2", kind="registrar", meter="m1", unreg=True)]),
     # recording while the instrument is being re-created: dropped before, delivered after, never twice
-    dict(name="record-during-install", script=["i1@set", "c1@rec:1", "i1@sdk.Meter:m1", "c1@rec:2", "i1@sdk.Inst:c1", "c1@rec:3"],
+    dict(name="record-during-install", script=["i1@set:1", "c1@rec:1", "i1@sdk.Meter:m1", "c1@rec:2", "i1@sdk.Inst:c1", "c1@rec:3"],
          procs=[dict(name="i1", kind="minst"), dict(name="c1", kind="creator", meter="m1", pre=True, n=4, ikind="f64hist")]),
     # Unregister after delegation goes to the SDK's registration; a second installer waits in the once
-    dict(name="unregister-after-set-2inst", script=["i1@set", "i2@set", "i1@sdk.Meter:m1", "i1@sdk.Inst:g1", "i1@sdk.Register:g1",
+    dict(name="unregister-after-set-2inst", script=["i1@set:1", "i2@set:1", "i1@sdk.Meter:m1", "i1@sdk.Inst:g1", "i1@sdk.Register:g1",
                                                     "g1@unreg", "g1@sdk.Unregister:g1"],
          procs=[dict(name="i1", kind="minst"), dict(name="i2", kind="minst"),
                 dict(name="g1", kind="registrar", meter="m1", pre=True, unreg=True)]),
     # tracers: Tracer() during SetTracerProvider, Start around the store
-    dict(name="tracer-during-install", script=["ti1@tset", "u2@tracer", "ti1@sdk.Tracer:t1", "u1@start:1", "u2@sdk.Tracer:t1", "u2@start:1"],
+    dict(name="tracer-during-install", script=["ti1@set:1", "u2@tracer", "ti1@sdk.Tracer:t1", "u1@start:1", "u2@sdk.Tracer:t1", "u2@start:1"],
          procs=[dict(name="ti1", kind="tinst"), dict(name="u1", kind="tuser", tracer="t1", pre=True, n=2),
                 dict(name="u2", kind="tuser", tracer="t1", n=2)]),
+    # ---- the Set call surface, sequentially (no concurrency needed; the gates only order the processes)
+    # self-set, then the real install, then a second real provider: early tracers stay with r1, new Gets see r2
+    dict(name="seq-tracer-self-r1-r2", script=["ti1@set:1", "ti1@set:2", "u1@start:1", "u3@tracer", "ti1@set:3", "u1@start:2", "u2@tracer", "u3@start:1"],
+         procs=[dict(name="ti1", kind="tinst", script=["self", "r1", "r2"]), dict(name="u1", kind="tuser", tracer="t1", pre=True, n=2),
+                dict(name="u2", kind="tuser", tracer="t2", n=1), dict(name="u3", kind="tuser", tracer="t3", kept=True, n=1)]),
+    dict(name="seq-meter-self-r1-r2", script=["i1@set:1", "i1@set:2", "c1@rec:1", "c3@meter", "i1@set:3", "c1@rec:2", "c2@meter", "c3@rec:1"],
+         procs=[dict(name="i1", kind="minst", script=["self", "r1", "r2"]), dict(name="c1", kind="creator", meter="m1", pre=True, n=2),
+                dict(name="c2", kind="creator", meter="m2", n=1), dict(name="c3", kind="creator", meter="m1", kept=True, n=1, ikind="f64gauge"),
+                dict(name="g1", kind="registrar", meter="m1", pre=True, unreg=False), dict(name="g2", kind="registrar", meter="m2", pre=True, unreg=True)]),
+    dict(name="seq-self-twice-then-r2", script=["i1@set:1", "ti1@set:1", "i1@set:2", "ti1@set:2", "i1@set:3", "ti1@set:3", "c1@rec:1", "u1@start:1"],
+         procs=[dict(name="i1", kind="minst", script=["self", "self", "r2"]), dict(name="ti1", kind="tinst", script=["self", "self", "r2"]),
+                dict(name="c1", kind="creator", meter="m1", pre=True, n=1), dict(name="u1", kind="tuser", tracer="t1", pre=True, n=1)]),
+    dict(name="seq-prop-eh-self-r1-r2", script=["xi.prop@set:1", "xi.eh@set:1", "xi.prop@set:2", "xi.eh@set:2", "xu.prop@use:1", "xu.eh@use:1",
+                                                "xi.prop@set:3", "xi.eh@set:3", "xu.prop@use:2", "xu.eh@use:2"],
+         procs=[dict(name="xi.prop", kind="xinst", x="prop", script=["self", "r1", "r2"]), dict(name="xi.eh", kind="xinst", x="eh", script=["self", "r1", "r2"]),
+                dict(name="xu.prop", kind="xuser", x="prop", n=2), dict(name="xu.eh", kind="xuser", x="eh", n=2)]),
+    # a self-set whose Get ran before, and whose Set runs after, another installer's real install (stores the default
+    # provider back: everything obtained from it keeps reaching r1)
+    dict(name="race-self-around-install", script=["i1@set:1", "i2@set:1", "c2@meter", "c2@rec:1"],
+         procs=[dict(name="i1", kind="minst", script=["r1"]), dict(name="i2", kind="minst", script=["self"]),
+                dict(name="c1", kind="creator", meter="m1", pre=True, n=1), dict(name="c2", kind="creator", meter="m1", n=1)]),
 ]
 
 
@@ -131,7 +180,7 @@ def classify(v):
         core = [s for s in sites if not VICTIM.match(s)] or sites   # goroutines merely queued behind the cycle are left out
         return {"kind": "deadlock", "cycle": "|".join(core), "extra": ""}
     sig = {"kind": k}
-    for f in ("sig", "class"):
+    for f in ("sig", "class", "via"):
         if f in v:
             sig[f] = v[f]
     return sig
@@ -163,30 +212,34 @@ def run(ctx):
     if r["violated"] != "Stuck":
         ctx.note_inconclusive("model drift: TLC does not find the D1 deadlock with AllowKnown=FALSE (%s)" % r["out"])
     # the proposed repair, re-modelled (Patched): no deadlock at all, no double / missed registration, termination
-    for c in ([base, FAMILY_QUICK[1]] + (FAMILY_THOROUGH[:3] if thorough else [])):
+    # (while D1 is open; afterwards the main family above already is the Patched model)
+    for c in (([base, FAMILY_QUICK[1]] + (FAMILY_THOROUGH[:3] if thorough else [])) if d1_open else []):
         ctx.tlc(S, "MC_GlobalDelegate", "MC_GlobalDelegate.cfg", defines=c.defines(patched=True, known=False),
                 name="mc-patched-" + c.name, timeout=3000)
     ctx.tlc(S, "MC_GlobalDelegate", "MC_GlobalDelegate_live.cfg", defines=base.defines(patched=True, known=False),
             name="live-patched-" + base.name, timeout=3000)
     # liveness of the code as it is wherever D1 cannot occur (nobody unregisters a global registration), tracers, simple
-    live = [Cfg("m-nounreg", creators=[C("c1", pre=True), C("c2")], registrars=[G("g1", pre=True, unreg=False), G("g2", unreg=False)]),
-            Cfg("t-u2", minst=0, tinst=2, tusers=[U("u1", pre=True), U("u2")], spans=2),
-            Cfg("x-prop-eh", minst=0, xkinds=["prop", "eh"], uses=2)]
+    live = [Cfg("m-nounreg", minst=[["self", "r1"]], creators=[C("c1", pre=True), C("c2")],
+                registrars=[G("g1", pre=True, unreg=False), G("g2", unreg=False)]),
+            Cfg("t-u2", minst=0, tinst=[["self", "r1"], ["r2"]], tusers=[U("u1", pre=True), U("u2")], spans=2),
+            Cfg("x-prop-eh", minst=0, xkinds=["prop", "eh"], xscripts={"prop": ["self", "r1", "r2"], "eh": ["self", "r1"]}, uses=2)]
     if thorough:
-        live += [FAMILY_QUICK[2], FAMILY_QUICK[3],
-                 Cfg("m-nounreg-2inst", minst=2, creators=[C("c1", pre=True), C("c2", "m2")],
+        live += [FAMILY_QUICK[4], FAMILY_QUICK[5],
+                 Cfg("m-nounreg-2inst", minst=[["r1"], ["self", "r2"]], creators=[C("c1", pre=True), C("c2", "m2")],
                      registrars=[G("g1", pre=True, unreg=False), G("g2", "m2", unreg=False)])]
     for c in live:
-        ctx.tlc(S, "MC_GlobalDelegate", "MC_GlobalDelegate_live.cfg", defines=c.defines(known=False), name="live-" + c.name, timeout=3000)
+        ctx.tlc(S, "MC_GlobalDelegate", "MC_GlobalDelegate_live.cfg", defines=c.defines(patched=not d1_open, known=False),
+                name="live-" + c.name, timeout=3000)
 
     # ------------------------------------------------------------ spec -> code: behaviours as gate scripts
     scenarios = []
-    sims = [FAMILY_QUICK[0], FAMILY_QUICK[1], Cfg("s-mt", creators=[C("c1", pre=True), C("c2", "m2")],
-                                                 registrars=[G("g1", pre=True), G("g2", "m2")], tinst=1,
-                                                 tusers=[U("u1", pre=True), U("u2")], recs=2, spans=2)]
+    sims = [FAMILY_QUICK[0], FAMILY_QUICK[1], FAMILY_QUICK[2], FAMILY_QUICK[4],
+            Cfg("s-mt", minst=[["self", "r1"]], creators=[C("c1", pre=True), C("c2", "m2")],
+                registrars=[G("g1", pre=True), G("g2", "m2")], tinst=[["r1", "r2"]],
+                tusers=[U("u1", pre=True), U("u2")], recs=2, spans=2)]
     if thorough:
-        sims += FAMILY_THOROUGH[:2] + [FAMILY_QUICK[2]]
-    nsim = 300 if thorough else 30
+        sims += FAMILY_THOROUGH[:2] + FAMILY_THOROUGH[4:] + [FAMILY_QUICK[3], FAMILY_QUICK[5]]
+    nsim = 250 if thorough else 24
     seen = set()
     stuck_beh = 0
     for c in sims:
